@@ -40,6 +40,214 @@ type cacheRow struct {
 	fn, field   string
 	publishLast bool
 	line        int
+	stmt        *ast.AssignStmt
+	rv          string
+}
+
+// A completion write: between the publication of a cache pointer and the return of the fill function, an assignment
+// THROUGH the published object — `rv.F.x = …`, `rv.F[i] = …`, or `a.x = …` / `a[i] = …` where `a` is a local that occurs in
+// the published expression (the published object itself, `hv.reducedType = ht`, or a slice handed to its constructor,
+// `NewTupleType(types, nil)`).  Shape: `once` (not in a loop, and no other write to the same location can happen on the
+// same path), `perIndex` (`a[i] = …` inside the loop over i), `repeated` (anything else: in a loop without being indexed
+// by the loop variable, or a location that is assigned by two statements that are not in exclusive branches).
+type cacheWrite struct {
+	fn, target, shape string
+	line              int
+}
+
+type cwStep struct {
+	node   ast.Node
+	branch int
+}
+
+type cwSite struct {
+	target   string
+	line     int
+	loopVars []string
+	inLoop   bool
+	indexVar string // the index of the outermost IndexExpr of the left-hand side when it is a plain identifier
+	path     []cwStep
+}
+
+func cwExclusive(a, b []cwStep) bool {
+	for _, x := range a {
+		for _, y := range b {
+			if x.node == y.node && x.branch != y.branch {
+				return true
+			}
+		}
+	}
+	return false
+}
+
+// aliases: the local identifiers that occur as values in the published expression
+func cwAliases(e ast.Expr) map[string]bool {
+	out := map[string]bool{}
+	var visit func(n ast.Node)
+	visit = func(n ast.Node) {
+		switch x := n.(type) {
+		case nil:
+		case *ast.Ident:
+			if x.Name != "nil" && x.Name != "true" && x.Name != "false" {
+				out[x.Name] = true
+			}
+		case *ast.CallExpr:
+			// the function position names a function or a conversion, not a value that is shared
+			if _, isLit := x.Fun.(*ast.FuncLit); isLit {
+				visit(x.Fun)
+			}
+			for _, a := range x.Args {
+				visit(a)
+			}
+		case *ast.SelectorExpr:
+			visit(x.X)
+		case *ast.CompositeLit:
+			for _, el := range x.Elts {
+				if kv, ok := el.(*ast.KeyValueExpr); ok {
+					visit(kv.Value)
+				} else {
+					visit(el)
+				}
+			}
+		case *ast.UnaryExpr:
+			visit(x.X)
+		case *ast.StarExpr:
+			visit(x.X)
+		case *ast.ParenExpr:
+			visit(x.X)
+		case *ast.IndexExpr:
+			visit(x.X)
+		case *ast.SliceExpr:
+			visit(x.X)
+		case *ast.TypeAssertExpr:
+			visit(x.X)
+		case *ast.BinaryExpr:
+			visit(x.X)
+			visit(x.Y)
+		}
+	}
+	visit(e)
+	return out
+}
+
+// cwTarget: is `lhs` a write through the published object?  (root.field… with root == rv, or root in aliases)
+func cwTarget(lhs ast.Expr, rv, field string, aliases map[string]bool) (indexVar string, ok bool) {
+	if ix, isIx := lhs.(*ast.IndexExpr); isIx {
+		if id, isId := ix.Index.(*ast.Ident); isId {
+			indexVar = id.Name
+		}
+	}
+	e := lhs
+	depth := 0
+	for {
+		switch x := e.(type) {
+		case *ast.SelectorExpr:
+			if id, isId := x.X.(*ast.Ident); isId && id.Name == rv {
+				// rv.<sel>: through the published object only when <sel> is the cache field and something follows
+				return indexVar, x.Sel.Name == field && depth > 0
+			}
+			e = x.X
+			depth++
+		case *ast.IndexExpr:
+			e = x.X
+			depth++
+		case *ast.StarExpr:
+			e = x.X
+		case *ast.ParenExpr:
+			e = x.X
+		case *ast.Ident:
+			return indexVar, depth > 0 && x.Name != rv && aliases[x.Name]
+		default:
+			return indexVar, false
+		}
+	}
+}
+
+func completionWrites(body []ast.Stmt, rv, field string, pub *ast.AssignStmt, fn string) []cacheWrite {
+	aliases := map[string]bool{}
+	for _, r := range pub.Rhs {
+		for k := range cwAliases(r) {
+			aliases[k] = true
+		}
+	}
+	delete(aliases, rv)
+	var sites []cwSite
+	var walk func(stmts []ast.Stmt, loopVars []string, inLoop bool, path []cwStep)
+	walk = func(stmts []ast.Stmt, loopVars []string, inLoop bool, path []cwStep) {
+		for _, s := range stmts {
+			switch s := s.(type) {
+			case *ast.AssignStmt:
+				if s.Pos() <= pub.Pos() {
+					continue
+				}
+				for _, l := range s.Lhs {
+					if iv, ok := cwTarget(l, rv, field, aliases); ok {
+						sites = append(sites, cwSite{target: src(l), line: fset.Position(s.Pos()).Line, loopVars: loopVars, inLoop: inLoop,
+							indexVar: iv, path: path})
+					}
+				}
+			case *ast.IfStmt:
+				walk(s.Body.List, loopVars, inLoop, append(append([]cwStep{}, path...), cwStep{s, 0}))
+				switch e := s.Else.(type) {
+				case *ast.BlockStmt:
+					walk(e.List, loopVars, inLoop, append(append([]cwStep{}, path...), cwStep{s, 1}))
+				case *ast.IfStmt:
+					walk([]ast.Stmt{e}, loopVars, inLoop, append(append([]cwStep{}, path...), cwStep{s, 1}))
+				}
+			case *ast.ForStmt:
+				lv := append([]string{}, loopVars...)
+				if as, ok := s.Init.(*ast.AssignStmt); ok {
+					for _, l := range as.Lhs {
+						if id, ok := l.(*ast.Ident); ok {
+							lv = append(lv, id.Name)
+						}
+					}
+				}
+				walk(s.Body.List, lv, true, path)
+			case *ast.RangeStmt:
+				lv := append([]string{}, loopVars...)
+				if id, ok := s.Key.(*ast.Ident); ok && id.Name != "_" {
+					lv = append(lv, id.Name)
+				}
+				walk(s.Body.List, lv, true, path)
+			case *ast.BlockStmt:
+				walk(s.List, loopVars, inLoop, path)
+			case *ast.SwitchStmt:
+				for i, c := range s.Body.List {
+					walk(c.(*ast.CaseClause).Body, loopVars, inLoop, append(append([]cwStep{}, path...), cwStep{s, i}))
+				}
+			case *ast.TypeSwitchStmt:
+				for i, c := range s.Body.List {
+					walk(c.(*ast.CaseClause).Body, loopVars, inLoop, append(append([]cwStep{}, path...), cwStep{s, i}))
+				}
+			}
+		}
+	}
+	walk(body, nil, false, nil)
+	var out []cacheWrite
+	for i, w := range sites {
+		byLoopVar := false
+		for _, v := range w.loopVars {
+			if v == w.indexVar && v != "" {
+				byLoopVar = true
+			}
+		}
+		conflict := false
+		for j, o := range sites {
+			if i != j && o.target == w.target && !cwExclusive(w.path, o.path) {
+				conflict = true
+			}
+		}
+		shape := "once"
+		switch {
+		case conflict, w.inLoop && !byLoopVar:
+			shape = "repeated"
+		case w.inLoop:
+			shape = "perIndex"
+		}
+		out = append(out, cacheWrite{fn: fn, target: w.target, shape: shape, line: w.line})
+	}
+	return out
 }
 
 // walk finds the publishing assignments; contOK = nothing but returns/points follows the enclosing statement
@@ -64,7 +272,7 @@ func cacheWalk(stmts []ast.Stmt, rv, field string, contOK bool, fn string, rows 
 			for _, l := range s.Lhs {
 				if sel, ok := l.(*ast.SelectorExpr); ok && sel.Sel.Name == field {
 					if id, ok := sel.X.(*ast.Ident); ok && id.Name == rv && s.Tok == token.ASSIGN {
-						*rows = append(*rows, cacheRow{fn: fn, field: field, publishLast: here, line: fset.Position(s.Pos()).Line})
+						*rows = append(*rows, cacheRow{fn: fn, field: field, publishLast: here, line: fset.Position(s.Pos()).Line, stmt: s, rv: rv})
 					}
 				}
 			}
@@ -144,6 +352,7 @@ type methodDecl struct {
 
 func genCaches() string {
 	var rows []cacheRow
+	var writes []cacheWrite
 	for _, file := range cacheFiles {
 		f := parseFile(file)
 		methods := map[string]methodDecl{} // "Recv.name"
@@ -189,11 +398,22 @@ func genCaches() string {
 						if field, ok := lazyField(s.Cond, m.rv); ok {
 							before := len(rows)
 							cacheWalk(s.Body.List, m.rv, field, here, k, &rows)
+							for _, r := range rows[before:] {
+								if !r.publishLast {
+									writes = append(writes, completionWrites(s.Body.List, m.rv, field, r.stmt, k)...)
+								}
+							}
 							if len(rows) == before {
 								// not assigned here: through a method of the same receiver?
 								for _, callee := range calledMethods(s.Body.List, m.rv) {
 									if cm, ok := methods[m.recv+"."+callee]; ok {
+										b2 := len(rows)
 										cacheWalk(cm.fd.Body.List, cm.rv, field, true, k+">"+callee, &rows)
+										for _, r := range rows[b2:] {
+											if !r.publishLast {
+												writes = append(writes, completionWrites(cm.fd.Body.List, cm.rv, field, r.stmt, k+">"+callee)...)
+											}
+										}
 									}
 								}
 							}
@@ -228,6 +448,14 @@ func genCaches() string {
 			sep = ""
 		}
 		fmt.Fprintf(&b, "  { fn := %s, field := %s, publishLast := %v }%s  -- line %d\n", leanStr(r.fn), leanStr(r.field), r.publishLast, sep, r.line)
+	}
+	b.WriteString("]\n\n-- writes through a published cache pointer, between the publication and the return of the fill function\ndef cacheWrites : List CacheWrite := [\n")
+	for i, w := range writes {
+		sep := ","
+		if i == len(writes)-1 {
+			sep = ""
+		}
+		fmt.Fprintf(&b, "  { fn := %s, target := %s, shape := .%s }%s  -- line %d\n", leanStr(w.fn), leanStr(w.target), w.shape, sep, w.line)
 	}
 	b.WriteString("]\n\nend Pcore.Generated\n")
 	return b.String()
